@@ -297,6 +297,49 @@ def run_cases(cases, obs, pred, work):
     return list(zip(cl, ol, pl))
 
 
+def _gallina_str(text):
+    b = text.encode("latin-1")
+    if all(0x20 <= c <= 0x7e for c in b):
+        return '"%s"' % text.replace('"', '""')
+    return "(bs [%s])" % ";".join(str(c) for c in b)
+
+
+def _gallina_sexp(x):
+    if isinstance(x, list):
+        return "(Ls [" + "; ".join(_gallina_sexp(y) for y in x) + "])"
+    if isinstance(x, tuple):
+        return "(St %s)" % _gallina_str(x[1])
+    return "(At %s)" % _gallina_str(x)
+
+
+def coq_sample(rows, work, fam, n=24):
+    """Re-evaluate a sample of the cases with vm_compute INSIDE Coq and compare with what the
+    extracted OCaml program printed (keeps extraction and the driver under test, DESIGN 2.3)."""
+    import props
+    if not rows:
+        return 0
+    step = max(1, len(rows) // n)
+    sample = [r for r in rows[::step] if len(r[0]) < 20000 and len(r[2]) < 20000][:n]
+    if not sample:
+        return 0
+    vf = os.path.join(work, "Sample_%s.v" % re.sub(r"\W", "_", fam))
+    with open(vf, "w") as f:
+        f.write("From Coq Require Import List String. Import ListNotations.\n"
+                "From Verif Require Import Interp.Sexp Interp.SexpEq Interp.Run.\nOpen Scope string_scope.\n")
+        f.write("Definition cases : list sexp := [\n " + ";\n ".join(_gallina_sexp(props.sx_parse(c)) for c, _, _ in sample) + "].\n")
+        f.write("Definition preds : list sexp := [\n " + ";\n ".join(_gallina_sexp(props.sx_parse(p)) for _, _, p in sample) + "].\n")
+        f.write("Definition M := Eval vm_compute in mismatches run_case 0 cases preds.\nPrint M.\n")
+    p = run(["coqc", "-Q", COQ, "Verif", "-w", "-notation-overridden", vf], cwd=work, timeout=900)
+    out = re.sub(r"\s+", " ", p.stdout)
+    if p.returncode != 0:
+        raise ProofBroken("coq-sample", "in-Coq re-evaluation of sampled cases failed to check:\n" + p.stdout[-2000:])
+    m = re.search(r"M = (\[[^\]]*\])", out)
+    if not m or m.group(1).replace(" ", "") != "[]":
+        raise ProofBroken("coq-sample", "vm_compute inside Coq and the extracted OCaml model disagree on sampled cases %s of family %s "
+                          "(extraction or driver bug)" % (m.group(1) if m else "?", fam))
+    return len(sample)
+
+
 def strip_id(line):
     """(obs ID rest) / (case ID FAM rest) -> text without the id."""
     m = re.match(r"^\((obs|case) \S+ (.*)\)$", line)
@@ -372,6 +415,7 @@ def check(prop, tier):
                 cov["evaluations"] += len(rows)
                 cov["distinct_nontrivial"] += stats.get("distinct_nontrivial", 0)
                 cov["samples"] += stats.get("samples", [])[:3]
+                cov["reevaluated_in_coq"] = cov.get("reevaluated_in_coq", 0) + coq_sample(rows, work, fam)
                 for case, obs, pred in rows:
                     o, p_ = strip_id(obs), strip_id(pred)
                     reason = props.direct_check(prop, fam, case, o)
